@@ -32,6 +32,14 @@ static const char* ename(iwrc rc) {
   }
 }
 
+// hcommon's unhex leaves the one byte of an empty ("-") buffer uninitialised: terminate it
+static size_t unhex0(const char *h, uint8_t **out) {
+  size_t n = unhex(h, out);
+  (*out)[n] = 0;
+  return n;
+}
+#define unhex unhex0
+
 static void hexraw(const void *p, size_t n) {
   for (size_t i = 0; i < n; ++i) printf("%02x", ((const uint8_t*) p)[i]);
 }
